@@ -375,6 +375,47 @@ def base_name(e):
     return e.id if isinstance(e, ast.Name) else None
 
 
+VIEW_FUNCS = {"np.asarray", "np.asanyarray", "np.atleast_1d", "np.atleast_2d", "np.ravel", "np.reshape", "np.squeeze",
+              "np.transpose", "np.swapaxes", "np.ascontiguousarray", "numpy.asarray"}
+VIEW_METHODS = {"view", "reshape", "ravel", "squeeze", "transpose", "swapaxes"}
+
+
+def view_source(val):
+    """name whose buffer `val` may share: `np.asarray(x)`, `x.reshape(…)`, `x.T`, `x[...]`, `np.array(x, copy=False)`."""
+    if isinstance(val, ast.Call):
+        fs = ast.unparse(val.func)
+        if fs in VIEW_FUNCS and val.args:
+            return view_source(val.args[0])
+        if fs in ("np.array", "numpy.array") and val.args and any(k.arg == "copy" and isinstance(k.value, ast.Constant)
+                                                                   and k.value.value is False for k in val.keywords):
+            return view_source(val.args[0])
+        if isinstance(val.func, ast.Attribute) and val.func.attr in VIEW_METHODS:
+            return view_source(val.func.value)
+        return None
+    if isinstance(val, ast.Attribute) and val.attr == "T":
+        return view_source(val.value)
+    if isinstance(val, (ast.Subscript, ast.Attribute, ast.Name)):
+        return base_name(val)
+    return None
+
+
+def memoised_functions():
+    """functions wrapped by a caching decorator: their results depend on the call history of the process."""
+    out = []
+    for dirpath, _, files in sorted(os.walk(os.path.join(REPO, "opfython"))):
+        for fn_ in sorted(files):
+            if fn_.endswith(".py"):
+                pth = os.path.join(dirpath, fn_)
+                for node in ast.walk(ast.parse(open(pth).read())):
+                    if isinstance(node, (ast.FunctionDef, ast.AsyncFunctionDef)):
+                        for d in node.decorator_list:
+                            ds = ast.unparse(d)
+                            if any(k in ds for k in ("lru_cache", "functools.cache", "cached_property", "memoize", "memoise")) \
+                                    or ds in ("cache",):
+                                out.append(f"{os.path.relpath(pth, REPO)}:{node.name}:{node.lineno}")
+    return out
+
+
 def collect_effects():
     """every statement of every function under opfython/ that writes through an object:
     (qualified function, root kind, target text, line); root kind in
@@ -440,8 +481,8 @@ def collect_effects():
                                             rows.append((f"{rel}:{qual}", kind(t.id), ast.unparse(st)[:60], st.lineno))
                                     else:
                                         val = st.value
-                                        b = base_name(val) if isinstance(val, (ast.Subscript, ast.Attribute, ast.Name)) else None
-                                        if b is not None and kind(b) in ("param", "alias") and not isinstance(val, ast.Call):
+                                        b = view_source(val) if val is not None else None
+                                        if b is not None and kind(b) in ("param", "alias"):
                                             aliases[t.id] = b
                                             fresh.discard(t.id)
                                         else:
@@ -700,7 +741,9 @@ def main():
             "/-- class attributes bound to a mutable container at class level (shared across instances) -/",
             "def classLevelMutables : List String := [" + ", ".join(f'"{c}"' for c in cm) + "]", "",
             "/-- allocations of uninitialised memory (`np.empty` …): their contents depend on the process history -/",
-            "def uninitialisedAllocs : List String := [" + ", ".join(f'"{c}"' for c in un) + "]", "", "end Opf.Gen"]
+            "def uninitialisedAllocs : List String := [" + ", ".join(f'"{c}"' for c in un) + "]", "",
+            "/-- functions wrapped by a caching decorator (`lru_cache`, `cache`, …): hidden state filled by earlier calls -/",
+            "def memoised : List String := [" + ", ".join(f'"{c}"' for c in memoised_functions()) + "]", "", "end Opf.Gen"]
     write(os.path.join(GEN, "Effects.lean"), "\n".join(eff) + "\n")
 
     sites, ung = read_distance_sites()
